@@ -1,5 +1,5 @@
 """C06 - a failed or cancelled mutate never damages the input file (structural clauses)."""
-from ..rules import mutate
+from ..rules import mutate, baseline
 
 EXPLANATION = (
     "Static rule checking of mutate's failure behaviour: R-EXC handler discipline around the yield (CancelMutation the only "
@@ -32,9 +32,13 @@ def c4(ctx):
     mutate.serialization_fails_loudly(ctx)
 
 
+def c_api(ctx):
+    baseline.surface(ctx, "C06: documented surface", functions=['simfile:mutate', 'simfile:open_with_detected_encoding'], keys=['simfile.ENCODINGS', 'simfile.CancelMutation'], modules=['simfile._private.nativeosfs', 'simfile._private.serializable'])
+
 CLAUSES = [
     ("C06.1", "handler discipline around the yield (R-EXC)", c1),
     ("C06.2-4", "nothing that can fail for data reasons happens after truncation; backup complete first (R-ORDER)", c2),
     ("C06.5", "write-effect census over mutate's call tree", c3),
     ("C06.6", "a failing serialization raises out of str(simfile): nothing swallows it (R-EXC)", c4),
+    ("C06.api", "public surface: signatures and defaults, constants, enumerations, blank templates, base classes as confirmed (R-API)", c_api),
 ]
